@@ -147,9 +147,36 @@ def find_callers(repo, finfo, by_name_ok=True):
             if meth is finfo.node:
                 out.append((m, c, True))
             continue
-        if isinstance(f, ast.Attribute) and f.attr == name and by_name_ok:
-            # self.method() inside the class hierarchy -> exact-ish
-            out.append((m, c, False))
+        if isinstance(f, ast.Attribute) and f.attr == name:
+            if isinstance(f.value, ast.Name) and f.value.id in ('self',
+                                                                'cls'):
+                # self.method(): resolve through the enclosing class
+                ci = repo.enclosing_class(c)
+                if ci is not None:
+                    owner, meth = ci.find_method(name)
+                    if meth is finfo.node:
+                        out.append((m, c, True))
+                        continue
+                    if finfo.cls is not None and \
+                            finfo.cls.is_subclass_of(ci.fq):
+                        out.append((m, c, True))   # overridden below ci
+                        continue
+                    if meth is not None:
+                        continue   # a different method of the same name
+            if isinstance(f.value, ast.Call) and unparse(
+                    f.value.func) == 'super':
+                ci = repo.enclosing_class(c)
+                if ci is not None:
+                    hit = False
+                    for b in ci.mro()[1:]:
+                        if name in b.methods:
+                            hit = b.methods[name] is finfo.node
+                            break
+                    if hit:
+                        out.append((m, c, True))
+                    continue
+            if by_name_ok:
+                out.append((m, c, False))
     return out
 
 
